@@ -27,7 +27,10 @@ LastEnd(es, dflt) == IF es = <<>> THEN dflt ELSE es[Len(es)].e
 (* ---------------- C13 clauses shared by all operations ------------------ *)
 CopyOpClauses(e) ==
   [ C13_receiver_unchanged |-> e.post = e.pre,
-    C13_argument_unchanged |-> e.argpost = e.arg ]
+    C13_argument_unchanged |-> e.argpost = e.arg,
+    \* the returned tier is a new object: it is neither the receiver nor the argument, and editing it afterwards does not show
+    \* in either (e.alias: established by the harness by identity and by a probing edit of the result)
+    C13_result_shares_nothing_with_the_operands |-> ~e.alias ]
 MutatorClauses(e) ==
   [ C13_failed_mutator_unchanged |-> (~Ok(e)) => e.post = e.pre,
     C13_argument_unchanged |-> e.argpost = e.arg ]
